@@ -9,12 +9,14 @@ import Liftbridge.Model.Envelope
 import Liftbridge.Driver.LogDrv
 import Liftbridge.Driver.TelemetryDrv
 import Liftbridge.Driver.AuthzDrv
+import Liftbridge.Driver.GroupsDrv
 
 namespace Liftbridge.Driver
 open Liftbridge
 
 structure St where
   log : LogSt := {}
+  groups : GroupsSt := {}
 
 def showRes {α} (f : α → String) : Res α → String
   | .ok a => "ok " ++ f a
@@ -50,6 +52,7 @@ def step (st : St) (line : String) : St × String :=
   | "c14" :: rest => (st, c14 rest)
   | "c19" :: rest => (st, c19 rest)
   | "c15" :: rest => (st, c15Step rest)
+  | "c12" :: rest => let (g, out) := groupsStep st.groups rest; ({ st with groups := g }, out)
   | "log" :: rest => let (l, out) := logStep st.log rest; ({ st with log := l }, out)
   | _ => (st, "bad-op")
 
